@@ -768,8 +768,14 @@ def p_path_update(eng, st, name, args, site, depth, call):
 
 def _blind_storage(eng, st, name, args, site, call):
     """a storage accessor the tables cannot attribute to a cell: fail closed (ENGINE obligation), never silently pure"""
-    eng.blind.add((name, "storage access through an accessor the primitive table does not model, at %s:%s" % (site[0], site[1])))
+    eng.blind.add((name, "@" + (site[2] if site and len(site) > 2 else "?")))
     return opaque_call(eng, st, name, args, site, call)
+
+
+@prim_re(r"(^|<dyn |::)cosmwasm_std::(traits::)?Storage( as [^>]*)?>?::(set|remove)$|^cosmwasm_std::Storage::(set|remove)$")
+def p_raw_storage_write(eng, st, name, args, site, depth, call):
+    """a raw key/value write bypasses every typed accessor: no rule can attribute it to a cell - fail closed"""
+    return _blind_storage(eng, st, name, args, site, call)
 
 
 _SP_PURE = re.compile(r"^cw_storage_plus::(Bound|PrefixBound|Bounder|RawBound|Endian|int_key|keys|de|helpers::(namespaces_with_key|nested_namespaces_with_key|encode_length))")
